@@ -40,6 +40,7 @@ def run(ctx):
     r43(ctx)
     r44(ctx)
     r45(ctx)
+    r46(ctx)
 
 
 def _sign_sites(ctx, b):
@@ -467,3 +468,33 @@ def r45(ctx):
     ctx.floor("R4.5", "HTLCInfo2 literals in extract_htlcs", n, 2)
     ctx.ob("R4.5", len(shapes) == 1, f"{eb.name}/sides-agree", f"offered and received HTLCs are converted differently: {sorted(shapes)}",
            where=f"{eb.file}:{eb.line}", sample=sorted(shapes))
+
+
+def r46(ctx):
+    ctx.rule("R4.6", "decoder bounds vs policy bounds: the to_broadcaster script decoder accepts every contest delay the "
+                     "built-in policies admit (else the raw entry refuses canonical transactions the semantic entry signs)")
+    p = ctx.prog
+    consts = {"max_delay": [], "min_delay": []}
+    for bb, bi, si, st in R.constructions(p, LS + "policy::simple_validator::SimplePolicy"):
+        if R.is_test_util(bb.name) or not bb.name.endswith("make_default_simple_policy"):
+            continue
+        v = dict(zip(st.rv.a[3], st.rv.ops))
+        bv = fnview(ctx, bb)
+        for f in consts:
+            e = bv.expr(v[f])
+            if e[0] == "int":
+                consts[f].append(e[1])
+    ctx.floor("R4.6", "built-in policy delay bounds", min(len(consts["max_delay"]), len(consts["min_delay"])), 2)
+    b = p.fn(LS + "tx::tx::CommitmentInfo::handle_to_broadcaster_output")
+    ctx.touch(b)
+    fv = fnview(ctx, b).named()
+    atoms._require_named_symbols(fv, [atoms.parse_atom("delay == 0")]) if hasattr(atoms, "_require_named_symbols") else None
+    for what, K in (("largest max_delay", max(consts["max_delay"])), ("smallest min_delay", min(consts["min_delay"]))):
+        assum = [atoms.parse_atom(f"delay == {K}")]
+        cut = atoms.scenario_cut(fv, assum)
+        live = fv.reach(0, cut_edges=cut)
+        ok = any(s_["block"] in live for s_ in fv.success_sites())
+        ctx.ob("R4.6", ok, f"{b.name}/admits/{what.split()[1]}",
+               f"the commitment script decoder refuses a to_self delay of {K}, the {what} of the built-in policies: a channel "
+               f"set up with that delay is signed through the semantic entry while the raw entry rejects its canonical transaction",
+               where=f"{b.file}:{b.line}", sample=f"delay == {K} can be decoded")
